@@ -37,6 +37,8 @@ BUILT = {
          "Hook events H4 (build tag verif). Races are decided by the race detector on the driven schedules only.", "TLA+ concurrency model: TLC exhaustive check + trace validation of hook events + race detector", "5 C14"),
  "C15": ("model_checking", "Mirror(pos) of ChessRules.tla (TLC checks that it commutes with Apply and Legal) supplies the mirrored positions; at every node Evaluate is compared across FEN-built / path-built / mirrored position and fresh / reused evaluator, under the four combinations of the UCI evaluation options; insufficient positions must evaluate to 0.",
          "Evaluation numerics themselves are not specified, only the relations.", "TLA+ spec (Mirror, histories) + replay", "5 C15"),
+ "C16": ("model_checking", "FenInput.tla generates the structured family of FEN-like strings (token sequences that overflow ranks by digit / piece, wrong rank counts, every field replaced by bad values, truncations), the driver adds seeded byte-level mutants; for ANY string the set-up must fail with an error or give a position that round-trips through its own FEN and answers queries, under recover and a watchdog; every node FEN of the TLC trees must round-trip exactly. For the protocol handler a catalogue of malformed lines is inserted into valid sessions (idle and while searching) in child processes: the engine must survive, still answer isready, keep its position, and the session must remain a behaviour of UciSession.tla with the malformed line as a no-op.",
+         "The string families are bounded (MaxTok 4 quick / 6 thorough, 5k / 500k mutants); 'all strings' is approached, not exhausted.", "TLA+ input generator + total oracle; trace validation of sessions with malformed lines", "5 C16"),
  "C17": ("model_checking", "SanOf / SanMatches of ChessRules.tla (TLC invariant SanUnique) give the SAN components and the set of moves a SAN text denotes; every legal move of every tree node is rendered in UCI and five SAN decorations and parsed back; hint-stripped and illegal texts must give the unique match or no move.",
          "The 65,536 x value-range encoding sweep is pending (MoveEnc).", "TLA+ spec + TLC enumeration + replay", "5 C17"),
  "C18": ("model_checking", "Geometry.tla enumerates every entry of every lookup table (sliding attacks for every occupancy of the line squares, rays, between, masks, distances, shifts) from coordinate definitions; each entry is compared with the engine's table, sliders with extra off-line occupancy.",
